@@ -67,6 +67,10 @@ mod scheduler;
 mod task;
 mod worker;
 
+#[cfg(folo_verif)]
+#[doc(hidden)]
+pub mod verif;
+
 pub(crate) use constants::NEVER_POISONED;
 pub use join_handle::*;
 pub(crate) use pool::PoolInner;
